@@ -35,8 +35,22 @@ def t_version_gate(ev, outcome, exc, path, I):
     return True
 
 
+def t_instances_keep_their_order(ev, outcome, exc, path):
+    """C05: the instances of a multivalued attribute are stored in the order the request gives them
+    (GetAttributes reports them by position): a value is only ever added at the end of its list."""
+    for e in ev:
+        if e[0] == 'list.insert':
+            pos, n = e[2], e[4]
+            at_end = (pos == n) if isinstance(pos, int) else (hasattr(pos, 't') and path.is_valid(pos.t >= n))
+            if not at_end:
+                return "an attribute instance is inserted in front of instances that arrived earlier"
+    return True
+
+
+c.trace("instances-keep-the-order-of-the-request", t_instances_keep_their_order)
+c.scope('trace.instances-keep', 'C05', 'C08')
 c.let('__self__', 'self')
-c.props('C16')
+c.props('C16', 'C05')
 c.trace("template-attributes-are-defined-by-the-requests-version", t_version_gate)
 c.scope('trace.template-attributes', 'C16')
 
